@@ -20,7 +20,8 @@ CONSTANTS MaxNodes, MaxDepth,
           XKinds,      \* subset of {"none","hook","cons","chan"}
           SubChoices,  \* include targets, e.g. {"s1","smissing"}
           AllowPoison, \* BOOLEAN
-          RootKinds,   \* subset of {"plain","flag","lst","both"}: defaults of the root
+          RootKinds,   \* subset of {"plain","flag","lst","both","cards","cardsab","itvar","itdef","itcards"}: defaults / vars of the root
+          ShadowKinds, \* subset of {"fresh","same"}: variable of a NESTED iterator: a new name (jt) / the enclosing iterator's name
           UvKinds      \* subset of {"none","flagoff","lstb","lstbad"}: user variables
 
 VARIABLES T, uv
@@ -35,8 +36,15 @@ RootDs(rk) == CASE rk = "plain" -> <<>>
                 \* per-element lists of different lengths, one of them empty (cards_<outer element>)
                 [] rk = "cards" -> <<<<"flag", "lit", "on">>, <<"cards_a", "lit", LP>>, <<"cards_b", "lit", LPQ>>,
                                      <<"cards_c", "lit", LE>>>>
+                [] rk = "itvar" -> <<<<"flag", "lit", "on">>>>
+                [] rk = "itcards" -> <<<<"flag", "lit", "on">>, <<"cards_a", "lit", LP>>, <<"cards_b", "lit", LPQ>>,
+                                       <<"cards_c", "lit", LE>>>>
+                [] rk = "itdef" -> <<<<"flag", "lit", "on">>, <<"it", "lit", "x">>>>
                 [] rk = "cardsab" -> <<<<"cards_a", "lit", LPQ>>, <<"cards_b", "lit", LB>>>>   \* none for "c"
                 [] OTHER -> <<>>
+\* the root (or, with VarKinds "itx", any role) defines a variable that has the NAME of an iteration variable used below:
+\* inside the iterator the iteration variable must shadow it (the innermost binding wins)
+RootVs(rk) == IF rk \in {"itvar", "itcards"} THEN <<<<"it", "lit", "x">>>> ELSE <<>>
 UvOf(uk) == CASE uk = "none" -> <<>>
               [] uk = "flagoff" -> <<<<"flag", "off">>>>
               [] uk = "lstb" -> <<<<"lst", LB>>>>
@@ -83,19 +91,28 @@ EnOf(ek, sc) ==
 VsOf(vk, sc) ==
   CASE vk = "flagoff" -> <<<<"flag", "lit", "off">>>>
     [] vk = "flagit" -> <<<<"flag", "ref", sc[Len(sc)][1]>>>>
+    [] vk = "itx" -> <<<<"it", "lit", "x">>>>     \* a role variable named like an iteration variable
     [] OTHER -> <<>>
 Initial(k) == CASE k = "agg" -> "a" [] k = "task" -> "t" [] k = "call" -> "c" [] k = "inc" -> "i" [] OTHER -> "z"
 
 Poisoned == \E i \in 1..Len(T) : T[i].ps
 
-G_Add(par, k, fk, ek, vk, x, ps, sub) ==
+RECURSIVE Dedupe(_)
+Dedupe(q) == IF q = <<>> THEN <<>>
+             ELSE LET r == Dedupe(SubSeq(q, 1, Len(q) - 1))
+                  IN IF \E i \in 1..Len(r) : r[i] = q[Len(q)] THEN r ELSE Append(r, q[Len(q)])
+
+G_Add(par, k, fk, ek, vk, x, ps, sub, sh) ==
   /\ Len(T) < MaxNodes
   /\ par \in RightmostAggs(T)
   /\ DepthOf(T, par) < MaxDepth
   /\ LET sc == Scope(T, par)
-         myvar == IF Len(sc) = 0 THEN "it" ELSE "jt"
+         \* sh = "same": the nested iterator reuses the variable name of the enclosing iterator (shadowing)
+         myvar == IF Len(sc) = 0 THEN "it" ELSE IF sh = "same" THEN sc[Len(sc)][1] ELSE "jt"
          sc2 == IF fk = "none" THEN sc ELSE Append(sc, <<myvar, FirstConst(fk)>>)
      IN /\ fk # "none" => Len(sc) < 2
+        /\ sh = "same" => (fk # "none" /\ sc # <<>>)
+        /\ (sh # "same" /\ "fresh" \notin ShadowKinds) => (fk = "none" \/ sc = <<>>)
         /\ fk \in DepKinds => sc # <<>>
         /\ ek \in {"iteq", "itne"} => sc2 # <<>>
         /\ vk = "flagit" => sc2 # <<>>
@@ -104,18 +121,18 @@ G_Add(par, k, fk, ek, vk, x, ps, sub) ==
         /\ (k = "inc") <=> (sub # "")
         /\ ps => (AllowPoison /\ ~Poisoned)
         /\ T' = Append(T, Nd(par, k, Initial(k) \o ToString(Len(T) + 1),
-                             [q \in 1..Len(sc2) |-> sc2[q][1]], EnOf(ek, sc2), VsOf(vk, sc2), <<>>,
+                             Dedupe([q \in 1..Len(sc2) |-> sc2[q][1]]), EnOf(ek, sc2), VsOf(vk, sc2), <<>>,
                              ps, x, sub, IF fk = "none" THEN <<>> ELSE <<ForSpec(fk, myvar, IF sc = <<>> THEN "" ELSE sc[Len(sc)][1])>>))
   /\ UNCHANGED uv
 
 GenInit ==
-  /\ \E rk \in RootKinds : T = <<Nd(0, "agg", "root", <<>>, ENT, <<>>, RootDs(rk), FALSE, "none", "", <<>>)>>
+  /\ \E rk \in RootKinds : T = <<Nd(0, "agg", "root", <<>>, ENT, RootVs(rk), RootDs(rk), FALSE, "none", "", <<>>)>>
   /\ \E uk \in UvKinds : uv = UvOf(uk)
 
 GenNext ==
   \E par \in 1..MaxNodes, k \in Kinds, fk \in ForKinds, ek \in EnKinds, vk \in VarKinds, x \in XKinds,
-     ps \in BOOLEAN, sub \in SubChoices \cup {""} :
-       G_Add(par, k, fk, ek, vk, x, ps, sub)
+     ps \in BOOLEAN, sub \in SubChoices \cup {""}, sh \in {"fresh", "same"} :
+       (sh \in ShadowKinds \/ sh = "fresh") /\ G_Add(par, k, fk, ek, vk, x, ps, sub, sh)
 
 GenSpec == GenInit /\ [][GenNext]_gvars
 
@@ -227,4 +244,22 @@ PerOuterOk(r) ==
                /\ [c \in 1..Len(insts) |-> LookupSt(insts[c].st, T[j].for[1].var)]
                     = [c \in 1..Len(RangeOf(T[j].for[1], EnvAt(nd))) |-> <<RangeOf(T[j].for[1], EnvAt(nd))[c]>>]
 Inv_NestedPerOuter == PerOuterOk(LI) /\ PerOuterOk(LAsIs)
+
+(* shadowing: everything generated inside an instance of an iterator's template role sees the iteration   *)
+(* variable with the value of THAT instance - also when an enclosing scope (an ancestor's or the root's    *)
+(* vars / defaults, an enclosing iterator using the same variable name) defines a variable of that name:   *)
+(* a child that does not rebind the variable itself has the same binding as the instance.                  *)
+(* (A USER variable of that name is outside the family: by the documented precedence user variables        *)
+(* override every role variable, the iteration variable included - observed on the real code, not judged.)  *)
+Rebinds(n, v) == (n.for # <<>> /\ n.for[1].var = v) \/ (\E q \in 1..Len(n.vs) : n.vs[q][1] = v)
+RECURSIVE InnermostWins(_)
+InnermostWins(s) ==
+  \A q \in 1..Len(s) :
+    /\ (s[q].src[1] = "" /\ Src(s[q]).for # <<>>) =>
+          LET v == Src(s[q]).for[1].var IN
+            \A c \in 1..Len(s[q].ch) :
+              (s[q].ch[c].src[1] = "" /\ ~Rebinds(Src(s[q].ch[c]), v)) => LookupSt(s[q].ch[c].st, v) = LookupSt(s[q].st, v)
+    /\ InnermostWins(s[q].ch)
+Inv_InnermostWins == InnermostWins(LI.out)
+\* (that the instance itself is bound to the element, not to an enclosing definition of the name, is Inv_Bound)
 =============================================================================
